@@ -12,7 +12,7 @@ Record tls_opts := {
   o_verify_client : bool      (* verify_client_cert *)
 }.
 
-Inductive pool := SystemRoots | ConfiguredCA.
+Inductive ca_pool := SystemRoots | ConfiguredCA.
 
 (* crypto/tls ClientAuthType *)
 Inductive client_auth :=
@@ -20,13 +20,13 @@ Inductive client_auth :=
 
 Record tls_config := {
   c_insecure : bool;          (* InsecureSkipVerify *)
-  c_roots : pool;             (* RootCAs (nil = system roots) *)
+  c_roots : ca_pool;             (* RootCAs (nil = system roots) *)
   c_has_cert : bool;          (* Certificates non-empty *)
   c_client_auth : client_auth;
-  c_client_cas : option pool  (* ClientCAs (None = nil) *)
+  c_client_cas : option ca_pool  (* ClientCAs (None = nil) *)
 }.
 
-Definition pool_eqb (a b : pool) : bool :=
+Definition ca_pool_eqb (a b : ca_pool) : bool :=
   match a, b with SystemRoots, SystemRoots | ConfiguredCA, ConfiguredCA => true | _, _ => false end.
 
 (* makeTlsConfig(cfg, requireCert)   (after the D11 fix: verify_client_cert is honoured) *)
@@ -42,7 +42,7 @@ Definition make_tls_config (o : tls_opts) (require_cert : bool) : res tls_config
 Section Handshake.
   Variable cert : Type.
   (* oracles: crypto/x509 *)
-  Variable chains_to : pool -> cert -> bool.        (* signature chain up to a root of the pool *)
+  Variable chains_to : ca_pool -> cert -> bool.        (* signature chain up to a root of the ca_pool *)
   Variable name_matches : cert -> list N -> bool.   (* VerifyHostname *)
   Variable time_valid : cert -> bool.               (* NotBefore <= now <= NotAfter along the chain *)
 
@@ -83,7 +83,7 @@ End Handshake.
 Inductive cert_kind := CValid | CWrongName | CUnknownCA | CExpired | CSelfSigned.
 
 (* the harness' CA is the "configured CA"; it is never among the system roots *)
-Definition ck_chains (p : pool) (k : cert_kind) : bool :=
+Definition ck_chains (p : ca_pool) (k : cert_kind) : bool :=
   match p, k with
   | ConfiguredCA, (CValid | CWrongName | CExpired) => true
   | _, _ => false
